@@ -1,5 +1,5 @@
 //@ unit surface
-//@ props C07
+//@ props C07 C10
 //@ source src/surface.rs
 #![allow(unused_imports, dead_code, unused_variables, unused_mut)]
 use vstd::prelude::*;
@@ -432,6 +432,56 @@ pub trait SurfaceMut: Surface {
     //@+     r == old(self).spec_data()[spec_offset(old(self).spec_shape(), pos)],
     //@subst N17 debug_assert!(..) statements removed (no effect on values; their conditions are the precondition) /debug_assert!\((?:[^;]|\n)*?\);//
     //@proof start proof { lemma_offset(old(self).spec_shape(), old(self).win(), old(self).spec_data().len(), pos); }
+}
+
+// ---------------------------------------------------------------- Layout::apply_to (C10): a layout clips to a sub-window
+//@ item struct SurfaceMutView
+impl<'a, T> SurfaceMutView<'a, T> {
+    pub closed spec fn g_shape(&self) -> Shape { self.shape }
+    pub closed spec fn g_data(&self) -> Seq<T> { self.data@ }
+
+    //@ fn impl<'a, T> SurfaceMutView<'a, T> :: new ret=r
+    //@+ ensures r.g_shape() == shape, r.g_data() == old(data)@,
+
+    //@ fn impl<'a, T> SurfaceMutView<'a, T> :: parts ret=r
+    //@+ ensures r.0 == self.g_shape(), r.1@ == self.g_data(),
+}
+
+// `impl ViewBounds for Range<usize>`: specified by the Python-slice rule for unsigned bounds; that the real impl
+// (generated by impl_range_ints!) satisfies it for every value is the Kani harness c08_range_usize (complete).
+pub open spec fn range_spec(start: usize, end: usize, size: usize) -> Option<(usize, usize)> {
+    let s = if start > size { size } else { start };
+    let e = if end > size { size } else { end };
+    if s < e { Some((s, e)) } else { None }
+}
+impl ViewBounds for core::ops::Range<usize> {
+    open spec fn spec_bounds(self, size: usize) -> Option<(usize, usize)> { range_spec(self.start, self.end, size) }
+    #[verifier::external_body]
+    fn view_bounds(self, size: usize) -> (r: Option<(usize, usize)>) { unimplemented!() }
+}
+
+// N18: the type-erased payload of Layout is an opaque stand-in
+#[verifier::external_body]
+pub struct LayoutData { _p: u8 }
+//@ item struct Layout src=src/view/layout.rs
+//@subst N18 type-erased payload `Box<dyn Any + Send + Sync>` replaced by an opaque stand-in /Box<dyn Any \+ Send \+ Sync>/Box<LayoutData>/
+
+impl Layout {
+    pub closed spec fn g_pos(&self) -> Position { self.pos }
+    pub closed spec fn g_size(&self) -> Size { self.size }
+
+    //@ fn impl Layout :: apply_to src=src/view/layout.rs ret=r
+    //@+ requires
+    //@+     exists|win: Win| rep(surf.g_shape(), win, surf.g_data().len()),
+    //@+     self.g_pos().row + self.g_size().height <= usize::MAX, self.g_pos().col + self.g_size().width <= usize::MAX,
+    //@+ ensures
+    //@+     // same backing data; the new shape denotes the sub-window rows pos.row..pos.row+height, cols pos.col..pos.col+width
+    //@+     // of the given surface, clipped to it - never anything outside the surface that was passed in
+    //@+     r.g_data() == surf.g_data(),
+    //@+     forall|win: Win| rep(surf.g_shape(), win, surf.g_data().len()) ==> rep(r.g_shape(),
+    //@+         view_win(win, range_spec(self.g_pos().row, (self.g_pos().row + self.g_size().height) as usize, surf.g_shape().height),
+    //@+                       range_spec(self.g_pos().col, (self.g_pos().col + self.g_size().width) as usize, surf.g_shape().width)), surf.g_data().len()),
+    //@subst N19 alias `TerminalSurface<'a>` (= SurfaceMutView<'a, Cell>) expanded with the cell type abstracted to a parameter /pub fn apply_to<'a>\(&self, surf: TerminalSurface<'a>\) -> \(r: TerminalSurface<'a>\)/pub fn apply_to<'a, T>(&self, surf: SurfaceMutView<'a, T>) -> (r: SurfaceMutView<'a, T>)/
 }
 
 proof fn lemma_divmod(n: int, w: int, h: int)
